@@ -192,10 +192,9 @@ def expressions(tier):
     for e in shapes(3, 2, ["u"]):
         if name(label(e)) in QUICK_U3:
             add(e, "quick")
-    # thorough: every concrete expression to depth 2 (<= 4 leaves), every collapsed tree to depth 3 with <= 4 leaves
-    for e in shapes(2, 4, UN_CONCRETE):
-        add(e, "thorough")
-    for e in shapes(3, 4, ["u"]):
+    # thorough: every `u`-collapsed tree to depth 3 with <= 3 leaves (each stands for all 3^k concrete expressions of
+    # its shape, so the concrete-typed ones of the quick tier are a cross-check, not a separate obligation)
+    for e in shapes(3, 3, ["u"]):
         add(e, "thorough")
     if tier == "quick":
         out = [o for o in out if o[1] == "quick"]
